@@ -3,6 +3,7 @@ package mocrelay_test
 import (
 	"context"
 	"fmt"
+	"math"
 	"math/rand/v2"
 	"sort"
 	"strings"
@@ -20,7 +21,7 @@ import (
 
 var c08Authors = []string{vk.FakePub(800), vk.FakePub(801)}
 
-func c08Filters(r *rand.Rand) []*mocrelay.ReqFilter {
+func c08Filters(r *rand.Rand, base int64) []*mocrelay.ReqFilter {
 	mk := func() *mocrelay.ReqFilter {
 		f := &mocrelay.ReqFilter{}
 		switch r.IntN(5) {
@@ -32,7 +33,7 @@ func c08Filters(r *rand.Rand) []*mocrelay.ReqFilter {
 		case 3:
 			f.Tags = map[string][]string{"t": {"v1"}}
 		case 4:
-			f.Since = vk.Ptr(int64(1005))
+			f.Since = vk.Ptr(base + 5)
 		}
 		if r.IntN(2) == 0 {
 			f.Limit = vk.Ptr(int64(r.IntN(4)))
@@ -45,14 +46,14 @@ func c08Filters(r *rand.Rand) []*mocrelay.ReqFilter {
 	return []*mocrelay.ReqFilter{mk()}
 }
 
-func c08Event(r *rand.Rand, tag string) *mocrelay.Event {
-	return vk.Seal(&mocrelay.Event{Kind: vk.Pick(r, []int64{1, 1, 7}), Pubkey: vk.Pick(r, c08Authors), CreatedAt: int64(1000 + r.IntN(10)),
+func c08Event(r *rand.Rand, tag string, base int64) *mocrelay.Event {
+	return vk.Seal(&mocrelay.Event{Kind: vk.Pick(r, []int64{1, 1, 7}), Pubkey: vk.Pick(r, c08Authors), CreatedAt: base + int64(r.IntN(10)),
 		Content: tag, Tags: []mocrelay.Tag{{"t", vk.Pick(r, []string{"v1", "v2"})}}})
 }
 
 func TestVerif_C08(t *testing.T) {
 	rep := vk.NewReport(t, "C08", "exploration")
-	rep.Rule = "NewMergeHandler over 2-5 scripted children; per REQ each child plays a seeded script: stored events (sorted or not, matching or not, shared with other children), its EOSE, then live events carrying unique (child, sequence) marks, with seeded yields/sleeps; the client issues 1-6 REQs per session, CLOSEs at seeded points (before/around/after the EOSE), re-uses a subscription id only after its EOSE; child emissions and client receipts are stamped on one logical clock and judged offline per (sub id, generation): exactly one EOSE after every child's own (none when a child had received the CLOSE before the last child EOSE was sent), pre-EOSE events are child emissions that match the filters, pairwise distinct, non-increasing in created_at, at most n for a single filter with limit n, post-EOSE emissions all arrive equal and in child order; non-trivial = a generation with at least two children that emitted events; distinct = distinct (children, EOSE order, drop reasons, close class) signatures"
+	rep.Rule = "NewMergeHandler over 2-5 scripted children; per REQ each child plays a seeded script: stored events (sorted or not, matching or not, shared with other children), its EOSE, then live events carrying unique (child, sequence) marks, with seeded yields/sleeps; timestamps come from a ten-second window that usually starts at 1000 and sometimes at 0, below 0 or at either end of the int64 range; the client issues 1-6 REQs per session, CLOSEs at seeded points (before/around/after the EOSE), re-uses a subscription id only after its EOSE; child emissions and client receipts are stamped on one logical clock and judged offline per (sub id, generation): exactly one EOSE after every child's own (none when a child had received the CLOSE before the last child EOSE was sent), pre-EOSE events are child emissions that match the filters, pairwise distinct, non-increasing in created_at, at most n for a single filter with limit n, post-EOSE emissions all arrive equal and in child order; non-trivial = a generation with at least two children that emitted events; distinct = distinct (children, EOSE order, drop reasons, close class) signatures"
 	defer rep.Finish()
 	pc := &pointCtl{sleep: true, only: "merge."}
 	mocrelay.SetVerifPoint(pc.fn)
@@ -77,6 +78,12 @@ func TestVerif_C08(t *testing.T) {
 			free := map[string]bool{"a": true, "b": true, "c": true}
 			nreq := 1 + r.IntN(6)
 			evn := 0
+			// the ten-second window the timestamps of this session are drawn from: usually
+			// 1000.., sometimes around zero or at the ends of the int64 range
+			base := vk.Pick(r, []int64{1000, 1000, 1000, 1000, 0, -4, -9, math.MinInt64, math.MaxInt64 - 9})
+			if base != 1000 {
+				rep.Count("sessions_with_boundary_timestamps", 1)
+			}
 			fail := func(sig, why string, g *mGen) {
 				wit := map[string]any{"children": nch, "client_received": describeRecv(cl.snapshot())}
 				if g != nil {
@@ -99,12 +106,12 @@ func TestVerif_C08(t *testing.T) {
 					sub = fmt.Sprintf("s%d", q)
 				}
 				free[sub] = false
-				g := &mGen{sub: sub, filters: c08Filters(r), plans: make([]mPlan, nch), closeRecv: make([]int64, nch), closed: make([]atomic.Bool, nch)}
+				g := &mGen{sub: sub, filters: c08Filters(r, base), plans: make([]mPlan, nch), closeRecv: make([]int64, nch), closed: make([]atomic.Bool, nch)}
 				// shared pool of stored events for this generation
 				pool := make([]*mocrelay.Event, 2+r.IntN(6))
 				for k := range pool {
 					evn++
-					pool[k] = c08Event(r, fmt.Sprintf("stored-%d-%d", i, evn))
+					pool[k] = c08Event(r, fmt.Sprintf("stored-%d-%d", i, evn), base)
 				}
 				for c := 0; c < nch; c++ {
 					p := mPlan{delaySeed: r.Uint64(), ignoreClos: r.IntN(2) == 0}
@@ -118,7 +125,7 @@ func TestVerif_C08(t *testing.T) {
 					nl := r.IntN(5)
 					for k := 0; k < nl; k++ {
 						evn++
-						p.live = append(p.live, c08Event(r, fmt.Sprintf("live-%d-c%d-%d", i, c, evn)))
+						p.live = append(p.live, c08Event(r, fmt.Sprintf("live-%d-c%d-%d", i, c, evn), base))
 					}
 					g.plans[c] = p
 				}
@@ -342,7 +349,7 @@ func c08Judge(rep *vk.Report, g *mGen, mine []rRecv, nch int, fail func(sig, why
 		limit = g.filters[0].Limit
 	}
 	seen := map[string]bool{}
-	var lastAt int64 = 1 << 62
+	var lastAt int64 = math.MaxInt64
 	pre := 0
 	for _, x := range mine {
 		m, is := x.msg.(*mocrelay.ServerEventMsg)
@@ -385,7 +392,7 @@ func c08Judge(rep *vk.Report, g *mGen, mine []rRecv, nch int, fail func(sig, why
 	// what the children offered before their EOSE and why it could be dropped (coverage)
 	{
 		offeredSeen := map[string]bool{}
-		var last int64 = 1 << 62
+		var last int64 = math.MaxInt64
 		cnt := int64(0)
 		sort.SliceStable(emits, func(a, b int) bool { return emits[a].call < emits[b].call })
 		for _, e := range emits {
